@@ -351,6 +351,7 @@ def run(mod, tier, seed):
         "known_findings_hit": {k: len(v) for k, v in sorted(known_hit.items())},
         "unknown_violation_keys": sorted(unknown),
         "rope_root": ROPE_ROOT,
+        "requested_seed": os.environ.get("VERIF_SEED_REQUESTED", str(seed)),
         "rope_tree_hash": rope_tree_hash(),
         "workers": nworkers,
         "verdict": "violated" if unknown else ("inconclusive" if reasons else "held-on-observed"),
@@ -456,5 +457,6 @@ def main(mod):
         return
     if a.replay:
         sys.exit(replay(mod, a.replay))
+    os.environ["VERIF_SEED_REQUESTED"] = os.environ.get("VERIF_SEED", "0") or "0"
     seed = effective_seed(a.tier, int(os.environ.get("VERIF_SEED", "0") or 0))
     sys.exit(run(mod, a.tier, seed))
